@@ -1534,6 +1534,11 @@ impl Machine {
         let mut interrupt_counter = std::num::Wrapping(0u8);
         'outer: loop {
             loop {
+                #[cfg(feature = "verif_hooks")]
+                if crate::machine::verif_hooks::tick() {
+                    break;
+                }
+
                 interrupt_counter += 1;
                 if interrupt_counter.0 == 0 {
                     break;
@@ -1609,6 +1614,11 @@ impl Machine {
         let mut interrupt_counter = std::num::Wrapping(0u8);
         'outer: loop {
             loop {
+                #[cfg(feature = "verif_hooks")]
+                if crate::machine::verif_hooks::tick() {
+                    break;
+                }
+
                 interrupt_counter += 1;
                 if interrupt_counter.0 == 0 {
                     break;
